@@ -75,11 +75,13 @@ typedef struct name_s {
 	int	lab[4];			/* label symbol 0..15: (len index << 2) | char index */
 	uint8_t	text[260]; size_t tlen;	/* dotted text, no trailing dot */
 	uint8_t	wire[260]; size_t wlen;	/* RFC 1035 3.1 label sequence, from the label list */
+	int	uniform_len;		/* != 0: nlabels labels of this length (many-label names), lab[] unused */
 } name_t;
 
 static void
 name_make(name_t *n, int nlabels, const int *lab) {
 	int i; size_t k;
+	n->uniform_len = 0;
 	n->nlabels = nlabels; n->tlen = 0; n->wlen = 0;
 	for (i = 0; i < nlabels; i ++) {
 		size_t L = LBL_LEN[lab[i] >> 2]; char c = LBL_CH[lab[i] & 3];
@@ -92,10 +94,29 @@ name_make(name_t *n, int nlabels, const int *lab) {
 	n->text[n->tlen] = 0;
 }
 
+/* many-label names: k labels of the same length (1..253 bytes of text in total) */
+static void
+name_make_uniform(name_t *n, int k, int L) {
+	int i, j;
+	n->uniform_len = L; n->nlabels = k; n->tlen = 0; n->wlen = 0;
+	for (i = 0; i < k; i ++) {
+		char c = LBL_CH[i & 3];
+		if (i) n->text[n->tlen ++] = '.';
+		n->wire[n->wlen ++] = (uint8_t)L;
+		for (j = 0; j < L; j ++) { n->text[n->tlen ++] = (uint8_t)c; n->wire[n->wlen ++] = (uint8_t)c; }
+	}
+	n->wire[n->wlen ++] = 0;
+	n->text[n->tlen] = 0;
+}
+
 static const name_t *cur_name;
 static void
 desc_name(char *b, size_t n) {
 	int i; size_t o = 0;
+	if (0 != cur_name->uniform_len) {
+		snprintf(b, n, "name text_len=%zu: %d labels of %d byte(s)", cur_name->tlen, cur_name->nlabels, cur_name->uniform_len);
+		return;
+	}
 	o += (size_t)snprintf(b + o, n - o, "name text_len=%zu labels=", cur_name->tlen);
 	for (i = 0; i < cur_name->nlabels && o < n; i ++)
 		o += (size_t)snprintf(b + o, n - o, "%s%c*%d", i ? "." : "", LBL_CH[cur_name->lab[i] & 3], LBL_LEN[cur_name->lab[i] >> 2]);
@@ -179,6 +200,18 @@ names_all(void) {
 			name_make(&nm, n, lab);
 			name_case_raw(&nm);
 			name_case_msg(&nm);
+		}
+	}
+	/* every label count: k labels of 1, 2, 3, 5 and 10 bytes while the text fits 253 bytes (1..127 labels) */
+	{
+		static const int LL[5] = { 1, 2, 3, 5, 10 };
+		int li, k;
+		for (li = 0; li < 5; li ++) {
+			for (k = 1; (k * LL[li] + (k - 1)) <= 253; k ++) {
+				name_make_uniform(&nm, k, LL[li]);
+				name_case_raw(&nm);
+				name_case_msg(&nm);
+			}
 		}
 	}
 	vh_set_describer(NULL);
